@@ -648,7 +648,9 @@ pub fn project(u: &Universe, layers_dir: &Path, name: &str) -> ALayer {
                             let e = e.unwrap();
                             let t = e.file_name().to_string_lossy().to_string();
                             let ok = u.execs.get(&t).is_some_and(|b| fs::read(e.path()).is_ok_and(|c| c == *b));
-                            l.execd.insert(if ok { t } else { format!("UNKNOWN:{t}") });
+                            // an exec.d program is a program: it keeps the executable bits of its source
+                            let executable = fs::metadata(e.path()).is_ok_and(|m| m.permissions().mode() & 0o111 == 0o111);
+                            l.execd.insert(if ok && executable { t } else if ok { format!("UNKNOWN:{t} (not executable)") } else { format!("UNKNOWN:{t}") });
                         }
                     }
                     _ => {
